@@ -19,6 +19,7 @@ pub mod pci_model;
 pub mod regdev;
 pub mod c10;
 pub mod c12;
+pub mod c11;
 pub mod replay;
 
 pub use engine::chooser::{choose, deviate};
